@@ -80,14 +80,29 @@ Templates ==
         ELSE {})
   \cup (IF ph.P = "cb" /\ hist.nch > 0 /\ HasK("L")
         THEN {[m |-> << <<"L", LastK("L")[2], Fadd(1, Fmul(2, ChalVal))>> >>,
-               p |-> << <<"L", LastK("L")[2], [k0 |-> 1, ch |-> hist.nch - 1, k1 |-> 2]>> >>]}
+               p |-> << <<"L", LastK("L")[2], [k0 |-> 1, ch |-> hist.nch - 1, k1 |-> 2]>> >>, chal |-> TRUE]}
         ELSE {})
+
+(* Confusion deviations.  A constraint that would hold if one of its wires were another wire - a neighbour wire of the same gate, the
+   same wire of an adjacent gate, another commitment - and that the real assignment violates because the two values differ: the offset
+   is coefficient * (value of the wire - value of the other wire).  A bookkeeping that confuses two wires (an aliased key, a shifted
+   index, swapped weight vectors) accepts exactly these. *)
+WireVal(w) == CASE w[1] = "L" -> cs.P.aL[w[2] + 1] [] w[1] = "R" -> cs.P.aR[w[2] + 1] [] w[1] = "O" -> cs.P.aO[w[2] + 1]
+                [] w[1] = "V" -> cs.P.v[w[2] + 1]
+WireExists(w) == w[2] >= 0 /\ (IF w[1] = "V" THEN w[2] < Len(cs.P.v) ELSE w[2] < PLen(cs.P))
+Neighbours(w) ==
+  {x \in (IF w[1] = "V" THEN {<<"V", w[2] - 1>>, <<"V", w[2] + 1>>}
+          ELSE {<<k, w[2]>> : k \in {"L", "R", "O"} \ {w[1]}} \cup {<<w[1], w[2] - 1>>, <<w[1], w[2] + 1>>}) : WireExists(x)}
+ConfDeltas(t) ==
+  UNION {IF t.m[k][1] = "1" \/ "chal" \in DOMAIN t THEN {}            \* (not the constant; not a challenge-dependent coefficient)
+         ELSE {Fmul(t.m[k][3], Fsub(WireVal(t.m[k]), WireVal(x))) : x \in Neighbours(t.m[k])} : k \in 1 .. Len(t.m)} \ {0}
+Signed(x) == IF x > P \div 2 THEN x - P ELSE x
 
 \* constrain(lc + c) with c = -value(lc) + delta: satisfied by construction (delta = 0) or violated by exactly delta
 FixCon(t, delta) ==
   [op |-> "con", lc |-> t.m \o << <<"1", 0, Fadd(Fneg(PEval(cs.P, t.m)), delta)>> >>,
    prog |-> IF delta = 0 THEN [op |-> "con", lc |-> t.p, fix |-> hist.nfix + 1]
-                         ELSE [op |-> "con", lc |-> t.p, fix |-> hist.nfix + 1, delta |-> IF delta = MinusOne THEN -1 ELSE delta],
+                         ELSE [op |-> "con", lc |-> t.p, fix |-> hist.nfix + 1, delta |-> Signed(delta)],
    isfix |-> TRUE, isdev |-> delta # 0]
 
 RichCalls ==
@@ -103,6 +118,7 @@ RichCalls ==
   \* (a sound verifier weighs every gate and constraint with its own monomial, so they can never cancel)
   \cup (IF hist.ndev >= MaxDev THEN {} ELSE
         {FixCon(t, d) : t \in Templates, d \in {1, MinusOne}}
+        \cup (IF hist.ndev = 0 THEN UNION {{FixCon(t, d) : d \in ConfDeltas(t)} : t \in Templates} ELSE {})
         \cup (IF PLen(cs.P) > 0
               THEN {[op |-> "setgate", i |-> g, l |-> cs.P.aL[g + 1], r |-> cs.P.aR[g + 1], o |-> Fadd(cs.P.aO[g + 1], 1),
                      prog |-> [op |-> "breakgate", i |-> g, delta |-> 1], isdev |-> TRUE] : g \in {0, LastGate} \ {cs.P.pending}}
